@@ -405,10 +405,9 @@ def _conf_case(rng):
     # one case in eight on the macOS branch of the platform helpers
     home_env = rng.choice(['set'] * 6 + ['unset'] * 3 + ['empty'])
     platform = 'darwin' if rng.random() < 0.125 else 'linux'
-    try:
-        plat = live_platform(home, home_env=home_env, platform=platform)
-    except Exception:     # noqa  (helpers that cannot cope with this environment: generate from the documented table)
-        plat = _spec_platform('' if home_env == 'empty' else home, set(), platform)
+    # where files are placed and which values are drawn follows the DOCUMENTED platform table, never the platform helpers
+    # under judgement (equal on the unchanged library; a changed helper must not move or crash the generator)
+    plat = _spec_platform('' if home_env == 'empty' else home, set(), platform)
     env = {k: (_value(rng, k, plat) if rng.random() < 0.35 else None) for k in ENVKEYS}
     files = []
     for p in plat['conf_paths']:
@@ -460,7 +459,7 @@ def _targeted_conf():
     candidate exists with a different value; the first existing file lacks the key a later one has; values containing
     the delimiters = and : ; CRLF files"""
     home = '/home/u'
-    plat = live_platform(home)
+    plat = _spec_platform(home, set())
     paths = plat['conf_paths']
     full = lambda tag: [['kv', 'transport', 'tcp://%s:1' % tag, 0], ['kv', 'pib', 'pib-sqlite3:/p/%s' % tag, 1],     # noqa
                         ['kv', 'tpm', 'tpm-file:/t/%s' % tag, 2]]
